@@ -840,8 +840,8 @@ fn around(r: &mut Rng, x: u64) -> u64 {
         0 => x.saturating_sub(2),
         1 | 2 => x.saturating_sub(1),
         3 | 4 | 5 => x,
-        6 => x + 1,
-        _ => x + 2,
+        6 => x.saturating_add(1),
+        _ => x.saturating_add(2),
     }
 }
 fn gen_hvr(r: &mut Rng, malformed: bool) -> String {
